@@ -57,10 +57,10 @@ class MWorld:
     def leaf_sx(self, v):
         if isinstance(v, torch.Tensor):
             ptr = v.untyped_storage().data_ptr() if v.numel() else ("empty", id(v))
-            return [self.U(v), Sym("t"), self.stor(ptr), 0, DTI.get(v.dtype, 9), v.numel(), v.element_size()]
+            return [self.U(v), Sym("t"), self.stor(ptr), 0, DTI.get(v.dtype, 9), v.numel(), v.element_size(), type(v).__name__ == "MemoryMappedTensor"]
         if isinstance(v, NonTensorData):
-            return [self.U(v), Sym("nd"), 0, self.payload(json.dumps(v.tolist(), default=str)), 0, 0, 0]
-        return [self.U(v), Sym("ns"), self.stor(("ns", id(v))), 0, 0, 0, 0]
+            return [self.U(v), Sym("nd"), 0, self.payload(json.dumps(v.tolist(), default=str)), 0, 0, 0, False]
+        return [self.U(v), Sym("ns"), self.stor(("ns", id(v))), 0, 0, 0, 0, False]
 
     def meta_sx(self, n):
         try:
@@ -73,7 +73,7 @@ class MWorld:
         return [str(k) for k in p]
 
     def node_sx(self, p, n, byid):
-        fl = n.__dict__.get("_is_locked", None)
+        fl = getattr(n, "_is_locked", None)
         pars = []
         if not is_lazy(n):
             for r in n.__dict__.get("__lock_parents_weakrefs", None) or []:
@@ -316,7 +316,7 @@ class MRunner:
                 bound = dict(children(n)).get(key)
                 osx = [Sym("makememmap"), W.path_sx(p + (key,)), W.leaf_sx(bound)]
             elif k == "memmap":
-                if any(is_lazy(m) or m.__dict__.get("_is_memmap") for _, m in walk_nodes(n)):
+                if any(is_lazy(m) for _, m in walk_nodes(n)):
                     return None
                 base = 100000 * (1 + len(self.ops_sx))
                 old = {q: v for q, v in walk_leaves(n) if isinstance(v, torch.Tensor)}
@@ -326,7 +326,9 @@ class MRunner:
                 for q, v in walk_leaves(n):
                     if q in old and isinstance(v, torch.Tensor):
                         if v is old[q]:
-                            raise RuntimeError("machinery: memmap_ kept a tensor object")
+                            if not oldenc[q][7]:
+                                raise RuntimeError("machinery: memmap_ kept a plain tensor object")
+                            continue
                         W.uid_pin[id(v)] = v
                         W.uid.m[id(v)] = base + oldenc[q][0]
                         W.stor.m[v.untyped_storage().data_ptr() if v.numel() else ("empty", id(v))] = base + oldenc[q][2]
@@ -351,6 +353,8 @@ class MRunner:
         except Exception as e:  # noqa: BLE001
             en = exc_enum(e)
             out = "lock-error" if en == "LockError" else ("machinery:" + repr(e) if "machinery" in str(e) else "other-error")
+            if k in ("names", "bs"):
+                return "abort"   # a failing metadata setter may have renamed part of the tree: outside the model, stop here
         if osx is None:
             return None
         self.ops_sx.append(osx)
@@ -435,7 +439,8 @@ class MRunner:
         try:
             st = self.W.state_sx()
             for op in self.prog["ops"]:
-                self.do(op)
+                if self.do(op) == "abort":
+                    break
             line = sx([Sym("hist"), [False, False, False], True, st, self.ops_sx])
         finally:
             self.W.close()
@@ -485,10 +490,11 @@ def compare(prog, impl, model):
         if im["read"] is not None:
             if m_info == "none":
                 return {"step": i, "what": "read target", "op": im["op"], "impl": im["read"], "model": m_info}
-            acc, cached, fr, _ = m_info
+            acc, cached, fr, _scratch = m_info
+            fr = fr[1] if isinstance(fr, list) and fr and fr[0] == "some" else None
             if acc != im["read"]["access"]:
                 return {"step": i, "what": "hit/miss", "op": im["op"], "impl": im["read"], "model": acc}
-            if acc == "hit" and im["read"]["fresh_equals_cached"] is not None:
+            if acc == "hit" and im["read"]["fresh_equals_cached"] is not None and fr is not None:
                 m_ok = norm(cached) == norm(fr)
                 if m_ok != im["read"]["fresh_equals_cached"]:
                     return {"step": i, "what": "stale verdict (memoised value == fresh recomputation)", "op": im["op"],
